@@ -766,7 +766,7 @@ fn work_dir() -> String {
 }
 
 fn n_seqs(ctx: &Ctx) -> u64 {
-    ctx.n(60_000, 20_000_000)
+    ctx.n(150_000, 20_000_000)
 }
 
 /// runs the cases of this process (a worker, a replay, or a sanitizer shard) in-process
